@@ -68,6 +68,22 @@ def run_selection(ctx, cls, f: FunctionInfo, tags: list, ranks: dict, comps: dic
             return Arr(args[0])
         if nm == "isnan" and len(args) == 1 and _is_num(args[0]):
             return args[0] != args[0]
+        if nm == "isnan" and len(args) == 1 and isinstance(args[0], Arr) and all(_is_num(x) for x in args[0]):
+            return Arr([x != x for x in args[0]])
+        if nm == "isclose" and len(args) == 2 and not kwargs:
+            # numpy.isclose(a, b): |a - b| <= atol + rtol * |b| with rtol=1e-05, atol=1e-08, element-wise with broadcasting of a scalar
+            a_, b_ = args
+            if isinstance(call.func, ast.Attribute) and isinstance(call.func.value, ast.Name) and call.func.value.id == "math":
+                return None
+            la = list(a_) if isinstance(a_, list) else None
+            lb = list(b_) if isinstance(b_, list) else None
+            k_ = len(la) if la is not None else len(lb) if lb is not None else None
+            if k_ is None:
+                return (abs(a_ - b_) <= 1e-08 + 1e-05 * abs(b_)) if _is_num(a_) and _is_num(b_) else None
+            la = la if la is not None else [a_] * k_
+            lb = lb if lb is not None else [b_] * k_
+            if len(la) == len(lb) and all(_is_num(x) for x in la + lb):
+                return Arr([abs(x - y) <= 1e-08 + 1e-05 * abs(y) for x, y in zip(la, lb)])
         if nm == "median" and len(args) == 1 and isinstance(args[0], list) and args[0] and all(_is_num(x) for x in args[0]):
             return statistics.median(args[0])
         if nm in ("absolute", "abs") and len(args) == 1:
